@@ -62,7 +62,10 @@ impl Var {
                     self.types[idx] = var_type.clone();
                 }
                 self.vars.retain(|k, v| {
-                    if !k.chars().last().unwrap_or('-').is_ascii_alphabetic() {
+                    // Only unsuffixed names whose letter is in the range change type.
+                    let retyped = !k.ends_with(['!', '#', '%', '$'])
+                        && Var::type_letter(k).map_or(false, |c| (from..=to).contains(&c));
+                    if !retyped {
                         true
                     } else {
                         match v {
